@@ -35,7 +35,24 @@ RP = "MiniMcmcVerif.Reporter."
 
 DI = "MiniMcmcVerif.Dist."
 
+HM = "MiniMcmcVerif.HMC."
+
 PROPS = {
+    "C02": {
+        "obligations": [HM + n for n in ["iter_eq", "leapBody_eq_verlet", "leapfrogCode_eq_verlet", "hmc_step_result", "hmc_step_ignores_carried", "hmc_rows_independent",
+                                         "hmc_step_summand", "verlet_flip_verlet", "verlet_reversible"]],
+        "rel32": 3e-3, "abs32": 1e-3, "rel64": 2e-5, "abs64": 2e-6,
+        "level_text": "Theorems (any scalar/vector types with + and scalar multiplication; any gradient field, step size, L incl. 0): the coded loop with its carried summand refines L velocity-Verlet steps and re-establishes "
+                      "its invariant; each row ends at x or at verlet^[L](x,p).1, the latter exactly when ln u <= H(x,p) - H(x',p'); the step's result does not depend on the summands left by the previous step (no stale gradient after a rejection); "
+                      "row i of the batch is the single-row update of row i's own data; over a module over a field the integrator is time-reversible for every L. Tied to hmc.rs by recording (hook) the momenta and uniforms each real step "
+                      "consumed and replaying every row at Float with closed-form gradients; bit-level predicates (row = old or proposal, mask consistency, row independence under perturbation of the other rows, reversibility via verif_leapfrog) on the implementation.",
+        "level_note": "Trusted: burn autodiff returns the gradient (cross-checked against closed forms under C15). Exact-arithmetic theorems; in the correspondence a row whose decision margin |dH - ln u| is below the resolvable precision, or whose "
+                      "trajectory is numerically unstable (a one-ulp input perturbation moves the result), is counted indeterminate.",
+        "rule": "targets: DiffableGaussian2D, Rosenbrock2D, RosenbrockND, d-dim Gaussians with random SPD precision, Student-t, quartic; 1-32 chains (30% single), dim 1-16, L in 0-64 (0-2 favoured), eps log-uniform in [1e-3, 10] "
+                "(every 7th case eps in [0.5,10]: unstable), NdArray<f32> and NdArray<f64>, 4 (thorough 8) consecutive steps so that steps after rejections occur; up to 4 rows per step replayed; distinct by (type, target, L, eps, x0)",
+        "trusted": ["burn autodiff", "floating-point rounding not modelled (margin / conditioning classification)"],
+        "assumptions": [],
+    },
     "C15": {
         "module": "MiniMcmcVerif.Props.C15Measure",
         "obligations": [DI + n for n in ["gauss2d_norm_minus_unnorm_const", "quad2_eq", "dgNew_inverse", "dgNew_normConst", "diffable_batch_rowwise", "dg_eq_gauss2d",
